@@ -10,7 +10,7 @@
 (***************************************************************************)
 EXTENDS Naturals, Sequences, FiniteSets, TLC
 
-CONSTANTS Nows, Kinds
+CONSTANTS Nows, Kinds, Pads
 
 Keys   == {"A", "B", "U"}
 Shows  == {"A", "B", "U", "none"}
@@ -18,8 +18,11 @@ NB(c)  == CASE c = "A" -> 4 [] c = "B" -> 8  [] OTHER -> 0
 NA(c)  == CASE c = "A" -> 12 [] c = "B" -> 16 [] OTHER -> 100
 
 Cfgs   == [storeA : BOOLEAN, storeB : BOOLEAN, now : Nows]
-Inputs == [kind : Kinds, signed : BOOLEAN, by : Keys, shows : Shows, tamper : BOOLEAN]
-InputOK(in) == (~in.signed) => (in.by = "A" /\ in.shows = "A" /\ ~in.tamper)   \* one representative for "unsigned"
+\* pad: for the assertion-signed kind, that many further assertions, signed the same way and never tampered with,
+\* come BEFORE the one described (every assertion of an unsigned Response is verified, however many there are)
+Inputs == [kind : Kinds, signed : BOOLEAN, by : Keys, shows : Shows, tamper : BOOLEAN, pad : Pads]
+InputOK(in) == /\ (~in.signed) => (in.by = "A" /\ in.shows = "A" /\ ~in.tamper)   \* one representative for "unsigned"
+               /\ (in.pad > 0) => (in.kind = "ssoAssert" /\ in.signed)
 
 InStore(cfg, c) == (c = "A" /\ cfg.storeA) \/ (c = "B" /\ cfg.storeB)
 StoreSize(cfg)  == (IF cfg.storeA THEN 1 ELSE 0) + (IF cfg.storeB THEN 1 ELSE 0)
@@ -40,9 +43,9 @@ IsLogout(in) == in.kind \in {"logoutReq", "logoutResp"}
 
 ModelOut(cfg, in) ==
    LET v == Verify(cfg, in) IN
-   IF v = "ok" THEN [res |-> "accept", flag |-> TRUE]
-   ELSE IF v = "missing" /\ IsLogout(in) THEN [res |-> "accept", flag |-> FALSE]
-   ELSE [res |-> "reject", flag |-> FALSE]
+   IF v = "ok" THEN [res |-> "accept", flag |-> TRUE, n |-> in.pad + 1]
+   ELSE IF v = "missing" /\ IsLogout(in) THEN [res |-> "accept", flag |-> FALSE, n |-> 1]
+   ELSE [res |-> "reject", flag |-> FALSE, n |-> 0]
 
 ---------------------------------------------------------------------------
 \* property relation, stated from the property text, not from Verify
@@ -57,10 +60,11 @@ C02_OK(cfg, in, o) ==
    /\ (in.signed /\ o.res = "accept") => Vouched(cfg, in)      \* never downgraded to "unsigned"
    /\ Vouched(cfg, in) => (o.res = "accept" /\ o.flag)          \* every store member is honoured equally
    /\ (~in.signed /\ ~IsLogout(in)) => o.res = "reject"         \* C01: an unsigned SSO message has no voucher
+   /\ (o.res = "accept" /\ in.kind = "ssoAssert") => o.n = in.pad + 1   \* all of them are returned, each one verified
 
 C04_OK(cfg, in, o) == (o.res = "accept" /\ o.flag) => Vouched(cfg, in)
 C10_OK(cfg, in, o) == (IsLogout(in) /\ o.res = "accept") => (o.flag <=> Vouched(cfg, in))
 C09_OK(cfg, in, o) == o.res \in {"accept", "reject"}
 
-Conforms(m, o) == o.res = m.res /\ (m.res = "accept" => o.flag = m.flag)
+Conforms(m, o) == o.res = m.res /\ (m.res = "accept" => (o.flag = m.flag /\ o.n = m.n))
 =============================================================================
